@@ -1,4 +1,9 @@
+#[cfg(not(o2o_verif))]
 use std::{collections::HashMap, iter::Peekable, slice::Iter};
+#[cfg(o2o_verif)]
+use std::{iter::Peekable, slice::Iter};
+#[cfg(o2o_verif)]
+use crate::verif_seam::HashMap;
 
 use crate::{
     ast::{DataType, DataTypeMember, Enum, Field, Struct, Variant},
